@@ -103,3 +103,20 @@ pub proof fn lemma_count_true_bound(s: Seq<SolverResult>)
     if s.len() > 0 { lemma_count_true_bound(s.drop_last()); }
 }
 
+
+// of(.., n) over a list of one member
+pub proof fn lemma_of3_single(r: SolverResult, n: u64)
+    ensures
+        n == 0 ==> of3(seq![r], n) == (match r { SolverResult::True => SolverResult::False, SolverResult::False => SolverResult::True, SolverResult::Missing => SolverResult::Missing }),
+        n == 1 ==> of3(seq![r], n) == r,
+        n >= 2 ==> of3(seq![r], n) == (if r == SolverResult::True { SolverResult::Missing } else { r }),
+{
+    let s = seq![r];
+    assert(s[0] == r);
+    assert(s.drop_last() =~= Seq::<SolverResult>::empty());
+    assert(s.last() == r);
+    reveal_with_fuel(count_true, 2);
+    assert(count_true(s) == (if r == SolverResult::True { 1nat } else { 0nat }));
+    if r == SolverResult::True { assert(any3(s, SolverResult::True)); }
+    if r == SolverResult::False { assert(any3(s, SolverResult::False)); }
+}
